@@ -58,7 +58,112 @@ def handle_models():
 
 
 def shards(tier, seed):
-    return [("LP", i, 16) for i in range(16)] + [("NLP", i, 24) for i in range(24)] + [("H", i, 6) for i in range(6)]
+    return ([("LP", i, 16) for i in range(16)] + [("NLP", i, 24) for i in range(24)] + [("H", i, 6) for i in range(6)]
+            + [("PAR", i, 4) for i in range(4)] + [("SH", i, 16) for i in range(16)])
+
+
+def param_cases():
+    """objectives holding a Parameter - as a leaf next to a variable and inside compound parameter-only terms - solved,
+    then re-solved on the same problem object after every Parameter.set of the sequence"""
+    X_, Y_, P_ = ("var", "x"), ("var", "y"), ("par", "p")
+    c_ = lambda v: ("c", v)  # noqa: E731
+    sq = lambda a: ("bin", "**", a, c_(2))  # noqa: E731
+    add_ = lambda *t: t[0] if len(t) == 1 else ("bin", "+", add_(*t[:-1]), t[-1])  # noqa: E731
+    mul_ = lambda a, b: ("bin", "*", a, b)  # noqa: E731
+    objs = {
+        "(2p)x+(3p+1)": add_(sq(("bin", "-", X_, c_(1))), mul_(mul_(c_(2), P_), X_), add_(mul_(c_(3), P_), c_(1)), sq(Y_)),
+        "p*x": add_(sq(("bin", "-", X_, c_(2))), mul_(P_, X_), sq(("bin", "-", Y_, c_(1)))),
+        "(x-p)^2+p^2": add_(sq(("bin", "-", X_, P_)), sq(P_), sq(Y_)),
+        "exp(p/2)*y": add_(sq(X_), mul_(("un", "exp", ("bin", "/", P_, c_(2))), Y_), sq(Y_)),
+        "-p+|p|*x^2": add_(("un", "neg", P_), mul_(("un", "abs", P_), sq(X_)), sq(("bin", "-", Y_, c_(0.5)))),
+    }
+    attrs = (("x", (("lb", -4), ("ub", 4))), ("y", (("lb", -4), ("ub", 4))))
+    for on, o in objs.items():
+        for sense in ("min", "max"):
+            for m in ("auto", "SLSQP", "L-BFGS-B", "trust-constr"):
+                yield (on, sense, m), PR.prob(sense, o if sense == "min" else ("un", "neg", o), (), attrs, (("p", 1.0),)), m
+
+
+def check_param_sequence(pr, method, rep=None, want=None):
+    fails = Fails(want)
+    try:
+        P, b, _ = PR.build_problem(pr)
+    except Exception as ex:
+        fails.add("exception:build:" + type(ex).__name__, msg=str(ex)[:200])
+        return fails
+    if rep:
+        rep.states += 1
+        rep.nt((pr, method))
+    kw = {} if method == "auto" else {"method": method}
+    for step, pv in enumerate((1.0, 4.0, -2.5, 0.0)):
+        try:
+            b.parameter("p").set(pv)
+            sol = P.solve(**kw)
+        except Exception as ex:
+            if rep:
+                rep.outcomes["raised:" + type(ex).__name__] += 1
+            continue
+        if rep:
+            rep.transitions += 2
+        if not sol.values or sol.objective_value is None:
+            continue
+        ref, ok = PR.eval_scalar(pr[2], sol.values, {"p": pv})
+        if rep:
+            rep.evaluations += 1
+        if ok and np.isfinite(ref) and np.isfinite(sol.objective_value) and abs(sol.objective_value - ref) > 1e-9 * (1 + abs(ref)):
+            fails.add("objective-value:after-parameter-set" if step else "objective-value", step=step, p=pv, got=sol.objective_value,
+                      expected=ref, status=sol.status.value, method=method, values=sol.values)
+            break
+    return fails
+
+
+def check_shared_objects(pr, method, rep=None, want=None):
+    """'Scenario analysis': ONE objective object and ONE set of constraint objects are used by two problems that differ in
+    a companion constraint - first with a variable zz (sorts last), then with A0 (sorts first): the same number of
+    variables, every shared variable one position further.  Both solves are checked against their own references."""
+    from optyx import Problem
+    from mc.build import Builder
+
+    fails = Fails(want)
+    attrs = dict(PR.attrs_dict(pr))
+    attrs.update({"A0": {"lb": 0, "ub": 1}, "zz": {"lb": 0, "ub": 1}})
+    try:
+        b = Builder(params=PR.params_dict(pr), var_attrs=attrs)
+        o = b.build(pr[2])
+        ks = [PR.build_constraint(b, c) for c in pr[3]]
+    except Exception:
+        return fails            # the cold checks report build errors
+    base_names = PR.problem_var_names(pr)
+    kw = {} if method == "auto" else {"method": method}
+    for step, extra in enumerate(("zz", "A0")):
+        try:
+            P = Problem()
+            (P.minimize if pr[1] == "min" else P.maximize)(o)
+            for k in ks:
+                P.subject_to(k)
+            P.subject_to(PR.build_constraint(b, ("cmp", "<=", ("var", extra), ("c", 1))))
+            sol = P.solve(**kw)
+        except Exception as ex:
+            if rep:
+                rep.outcomes["raised:" + type(ex).__name__] += 1
+            return fails
+        if rep:
+            rep.states += 1
+            rep.transitions += 3 + len(ks)
+        if not sol.values or sol.objective_value is None:
+            continue
+        names = sorted(base_names + [extra])
+        if sorted(sol.values) != names:
+            fails.add("values-keys:shared-objects", step=step, got=sorted(sol.values), expected=names, method=method)
+            break
+        ref, ok = PR.eval_scalar(pr[2], sol.values)
+        if rep:
+            rep.evaluations += 1
+        if ok and np.isfinite(ref) and np.isfinite(sol.objective_value) and abs(sol.objective_value - ref) > 1e-9 * (1 + abs(ref)):
+            fails.add("objective-value:shared-objects", step=step, companion=extra, got=sol.objective_value, expected=ref,
+                      status=sol.status.value, method=method, values=sol.values)
+            break
+    return fails
 
 
 class _SkipFlip(Exception):
@@ -198,6 +303,20 @@ def explore(item, tier, seed):
                 record(check_solution(pr, m, (), rep), {"family": "lp", "label": labs, "problem": pr, "method": m})
                 if rep.states % 301 == 1:
                     rep.sample({"label": labs, "method": m})
+    elif kind == "SH":
+        import itertools as _it
+
+        step = 3 if tier == "thorough" else 23
+        for idx, labs, pr, m in _it.chain(F.family("quick"), F.view_family()):
+            if idx % step == 0 and (idx // step) % n == i:
+                record(check_shared_objects(pr, m, rep), {"family": "shared", "label": labs, "problem": pr, "method": m})
+        for idx, lab, pr, m in N.family("quick", methods=("auto", "SLSQP", "trust-constr") if tier == "thorough" else ("auto", "SLSQP")):
+            if idx % (2 if tier == "thorough" else 7) == 0 and (idx // 7) % n == i:
+                record(check_shared_objects(pr, m, rep), {"family": "shared", "label": lab, "problem": pr, "method": m})
+    elif kind == "PAR":
+        for k, (lab, pr, m) in enumerate(param_cases()):
+            if k % n == i:
+                record(check_param_sequence(pr, m, rep), {"family": "param", "label": lab, "problem": pr, "method": m})
     elif kind == "NLP":
         methods = ("auto", "SLSQP", "trust-constr", "L-BFGS-B", "Nelder-Mead", "BFGS", "linprog")
         for idx, lab, pr, m in N.family(tier, methods=methods):
@@ -230,6 +349,10 @@ def _extras_of(case):
 
 def replay(art):
     case = art["violation"]["case"]
+    if case.get("family") == "shared":
+        return [{"kind": k, "detail": d} for k, d in check_shared_objects(detuple(case["problem"]), case["method"], None, want=art["culprit"]["kind"])]
+    if case.get("family") == "param":
+        return [{"kind": k, "detail": d} for k, d in check_param_sequence(detuple(case["problem"]), case["method"], None, want=art["culprit"]["kind"])]
     fs = check_solution(detuple(case["problem"]), case["method"], detuple(case.get("handles", [])), None,
                         want=art["culprit"]["kind"])
     return [{"kind": k, "detail": d} for k, d in fs]
